@@ -317,7 +317,8 @@ static std::string runSoak(const std::string& line) {
    const char* bin = std::getenv("CELMA_CONC_TSAN");
    std::string b = bin ? bin : "./concurrency_tsan";
    if (access(b.c_str(), X_OK) != 0) return "bad-op soak binary " + b + " missing";
-   std::string cmd = "printf '%s\\n' '" + line + "' | " + b + " 2>soak_tsan.log";
+   // a mutated tree may corrupt the heap and hang: bounded run time
+   std::string cmd = "printf '%s\\n' '" + line + "' | timeout -s KILL 60 " + b + " 2>soak_tsan.log";
    FILE* p = popen(cmd.c_str(), "r");
    if (!p) return "bad-op popen";
    char buf[1024];
@@ -338,6 +339,7 @@ static std::string runSoak(const std::string& line) {
       std::fclose(f);
    }
    while (!summary.empty() && summary.back() == '\n') summary.pop_back();
+   if (code == 137 || code == 124) return "!! soak did not finish within 60 s (hang) [" + out + "]";
    if (out.rfind("!!", 0) == 0) return out;
    return "!! soak exit=" + std::to_string(code) + " " + summary + " [" + out + "]";
 }
@@ -370,6 +372,9 @@ int main() {
 #else
 // ============================================================================ un-hooked soak
 
+/// waiting loops sleep instead of spinning: 16 spinning threads under TSan starve a loaded machine
+static inline void nap() { std::this_thread::sleep_for(std::chrono::microseconds(20)); }
+
 static std::string soakSingleton(int nthreads, int rounds) {
    bool okBuilt = true, okSame = true;
    for (int r = 0; r < rounds; ++r) {
@@ -382,16 +387,17 @@ static std::string soakSingleton(int nthreads, int rounds) {
       for (int i = 0; i < nthreads; ++i)
          ws.emplace_back([&, i] {
             ready.fetch_add(1, std::memory_order_relaxed);
-            while (go.load(std::memory_order_relaxed) == 0) std::this_thread::yield();
+            // tight start: spin briefly so that the first accesses really collide, then sleep
+            for (int spin = 0; go.load(std::memory_order_relaxed) == 0; ++spin) if (spin > 4000) nap();
             // the last thread is late on purpose: it arrives when the object exists and takes the fast path
             if (i == nthreads - 1 && nthreads > 1 && (r % 2) == 0)
-               while (finished.load(std::memory_order_relaxed) == 0) std::this_thread::yield();
+               while (finished.load(std::memory_order_relaxed) == 0) nap();
             const Obj& o = Obj::instance();
             addr[i] = &o;
             got[i] = o.serial;
             finished.fetch_add(1, std::memory_order_relaxed);
          });
-      while (ready.load(std::memory_order_relaxed) < nthreads) std::this_thread::yield();
+      while (ready.load(std::memory_order_relaxed) < nthreads) nap();
       go.store(1, std::memory_order_relaxed);
       for (auto& w : ws) w.join();
       if (g_built.load() != 1) okBuilt = false;
@@ -411,19 +417,19 @@ static std::string soakManaged(int nobservers, int rounds) {
       {
          ManagedThread mt([&] {
             st.store(1, std::memory_order_relaxed);
-            while (!release.load(std::memory_order_relaxed)) std::this_thread::yield();
+            while (!release.load(std::memory_order_relaxed)) nap();
             st.store(2, std::memory_order_relaxed);
          });
          std::vector<std::thread> obs;
          for (int i = 0; i < nobservers; ++i)
             obs.emplace_back([&] {
-               while (st.load(std::memory_order_relaxed) < 1) std::this_thread::yield();
+               while (st.load(std::memory_order_relaxed) < 1) nap();
                // has seen "started"; the function cannot finish before `release`
                for (int k = 0; k < 3; ++k) if (!mt.isActive()) wrong.fetch_add(1, std::memory_order_relaxed);
             });
          for (auto& o : obs) o.join();
          release.store(true, std::memory_order_relaxed);
-         while (st.load(std::memory_order_relaxed) < 2) std::this_thread::yield();
+         while (st.load(std::memory_order_relaxed) < 2) nap();
          mt.join();
          if (mt.isActive()) okInactive = false;
       }
